@@ -148,6 +148,76 @@ Definition WorldOk (w : world) : Prop :=
   /\ NoDup (concat (map ps_params (all_sets w)))
   /\ matrix_ok (w_map w).
 
+(* ---- what one Parameter does, written out independently of the model's Parameter code
+   (M_Params.param_new / make_fixed / make_floating / set_value are proved equal to these closed forms:
+   C04_param_new, C04_make_fixed_forms, C04_make_floating_forms, C04_set_value_spec) *)
+Definition opt_or {A} (a b : option A) : option A := match a with Some x => Some x | None => b end.
+Definition in_bounds (lo hi v : Z) : bool := (lo <=? v) && (v <=? hi).
+
+Definition s_param_new (d : decl) : res param :=
+  let fx := match d_isfixed d with
+            | Some b => b
+            | None => match d_valmin d, d_valmax d with Some _, Some _ => false | _, _ => true end
+            end in
+  if fx then Ok (mkParam (d_name d) (d_initial d) true (d_valmin d) (d_valmax d) (d_initial d))
+  else match d_valmin d, d_valmax d with
+       | Some lo, Some hi =>
+           if in_bounds lo hi (d_initial d)
+           then Ok (mkParam (d_name d) (d_initial d) false (Some lo) (Some hi) (d_initial d))
+           else Err ValueError
+       | _, _ => Err TypeError
+       end.
+
+Definition s_make_fixed (p : param) (i : option Z) : param :=
+  match i with
+  | None => mkParam (p_name p) (p_value p) true (p_valmin p) (p_valmax p) (p_value p)
+  | Some v =>
+      match p_valmin p, p_valmax p with
+      | Some lo, Some hi =>
+          if in_bounds lo hi v then mkParam (p_name p) v true (Some lo) (Some hi) v
+          else mkParam (p_name p) v true None None v
+      | lo, hi => mkParam (p_name p) v true lo hi v
+      end
+  end.
+
+Definition s_make_floating (p : param) (i lo hi : option Z) : res param :=
+  let i' := match i with Some v => v | None => p_value p end in
+  match opt_or lo (p_valmin p), opt_or hi (p_valmax p) with
+  | Some lo', Some hi' =>
+      if in_bounds lo' hi' i' then Ok (mkParam (p_name p) i' false (Some lo') (Some hi') i') else Err ValueError
+  | _, _ => Err ValueError
+  end.
+
+Definition s_set_value (p : param) (v : Z) : res param :=
+  if p_isfixed p then (if v =? p_initial p then Ok (with_value p v) else Err ValueError)
+  else match p_valmin p, p_valmax p with
+       | Some lo, Some hi => if in_bounds lo hi v then Ok (with_value p v) else Err ValueError
+       | _, _ => Err TypeError
+       end.
+
+Definition s_entry (e : fentry) : option Z * option Z * option Z :=
+  match e with
+  | FNone => (None, None, None)
+  | FInit v => (Some v, None, None)
+  | FTriple i lo hi => (i, lo, hi)
+  end.
+
+Definition s_fix_row (req : fixreq) (p : param) : param :=
+  match assoc req (p_name p) with Some i => s_make_fixed p i | None => p end.
+
+Definition s_float_row (req : floatreq) (p : param) : param :=
+  match assoc req (p_name p) with
+  | Some e => let '(i, lo, hi) := s_entry e in
+              match s_make_floating p i lo hi with Ok p' => p' | Err _ => p end
+  | None => p
+  end.
+
+Definition s_float_row_ok (req : floatreq) (p : param) : bool :=
+  match assoc req (p_name p) with
+  | None => true
+  | Some e => let '(i, lo, hi) := s_entry e in p_isfixed p && is_ok (s_make_floating p i lo hi)
+  end.
+
 (* ------------------------------------------------------------------ the specification interpreter
    A world of VALUES: every parameter set is just the list of its parameters (name, fixed flag,
    initial, bounds, value) in declaration order; no store, no object identity, no caches.  The mapper
@@ -174,13 +244,15 @@ Definition has_name (t : list param) (n : Z) : bool := existsb (fun p => p_name 
 Definition s_add (t : list param) (p : param) (front : bool) : res (list param) :=
   if has_name t (p_name p) then Err KeyError else Ok (if front then p :: t else t ++ [p]).
 
-(* make_params_fixed: every requested parameter that is present must be floating; then each of them is fixed *)
+(* make_params_fixed: every requested parameter that is present must be floating; then each of them is fixed.
+   (fix_one / float_one / float_row_ok are the MODEL-level forms used by the model theorems; the
+   interpreter uses the independent s_fix_row / s_float_row / s_float_row_ok) *)
 Definition fix_one (req : fixreq) (p : param) : param :=
   match assoc req (p_name p) with Some i => make_fixed p i | None => p end.
 
 Definition s_fix (t : list param) (req : fixreq) : res (list param) :=
   if existsb (fun p => is_some (assoc req (p_name p)) && p_isfixed p) t then Err ValueError
-  else Ok (map (fix_one req) t).
+  else Ok (map (s_fix_row req) t).
 
 (* make_params_floating: every requested parameter that is present must be fixed and its new settings
    (given or inherited initial / bounds) must be valid; then each of them is set floating *)
@@ -199,7 +271,7 @@ Definition float_row_ok (req : floatreq) (p : param) : bool :=
   end.
 
 Definition s_float (t : list param) (req : floatreq) : res (list param) :=
-  if forallb (float_row_ok req) t then Ok (map (float_one req) t) else Err ValueError.
+  if forallb (s_float_row_ok req) t then Ok (map (s_float_row req) t) else Err ValueError.
 
 (* union: the parameters of the first set, then those of the others whose name is new (copies: values) *)
 Fixpoint add_new (acc qs : list param) : list param :=
@@ -213,7 +285,7 @@ Definition s_union (ts : list (list param)) : res (list param) :=
 
 (* params[k].value = v *)
 Definition s_setv (t : list param) (k v : Z) : res (list param) :=
-  do p <- py_get t k; do p' <- set_value p v; py_set t k p'.
+  do p <- py_get t k; do p' <- s_set_value p v; py_set t k p'.
 
 (* map_param: the new alias matrix (argument checks, duplicate check, np.where, hstack) *)
 Definition map_rows (n : nat) (rows : list (list (option Z))) (pname : Z) (models : option (list Z)) (al : aliases)
@@ -239,7 +311,7 @@ Definition s_step (a : aworld) (o : op) : aworld * option err :=
       match nth_error (a_sets a) n with
       | None => (a, Some IndexError)
       | Some t =>
-          match param_new d with
+          match s_param_new d with
           | Err e => (a, Some e)
           | Ok p => match s_add t p front with
                     | Err e => (a, Some e)
@@ -248,7 +320,7 @@ Definition s_step (a : aworld) (o : op) : aworld * option err :=
           end
       end
   | OMap d models al =>
-      match param_new d with
+      match s_param_new d with
       | Err e => (a, Some e)
       | Ok p =>
           match map_rows (length (a_src a)) (a_names a) (p_name p) models al with
@@ -303,9 +375,6 @@ Definition abs_set (st : store) (s : pset) : list param :=
 Definition abs (w : world) : aworld :=
   mkAW (mp_src (w_map w)) (abs_set (w_store w) (mp_gps (w_map w))) (mp_names (w_map w))
        (map (abs_set (w_store w)) (w_sets w)).
-
-(* a given setting is used, a missing one is inherited *)
-Definition opt_or {A} (a b : option A) : option A := match a with Some x => Some x | None => b end.
 
 (* the model indices create_src_params_recarray makes rows for: all sources / the given int32 array /
    the requested source objects among the sources, in model order *)
